@@ -550,8 +550,11 @@ func run(t *testing.T, tape *simrt.Tape) *hx.Outcome {
 							mode = "skip"
 							l.SkipVerify()
 							err = nil
-							if len(bgs) > 1 || psize > 0 {
-								skipCachedAll = true
+							if len(bgs) > 1 {
+								skipCachedAll = true // background fetch caches every chunk
+							}
+							for _, pf := range bc.Prioritized {
+								skipRead[model.Get(pf).Resolve().Path] = true // prefetch caches the prioritized files
 							}
 						} else {
 							mode = "verify"
